@@ -120,6 +120,9 @@ func runScenario(c driver.Case) (ops int64) {
 			b.Srcs = append(b.Srcs, quietSource(fmt.Sprintf("s%d", i), 30+rng.Intn(40), end, start).Observable())
 		}
 		p := e.Pipeline(b)
+		if rng.Intn(2) == 0 {
+			p = p.Counted() // a stateful library operator downstream: overlapping deliveries race in library memory
+		}
 		if c.Get("kind") == "entry" {
 			var sub ro.Subscription
 			func() { defer func() { recover() }(); sub = p.Subscribe(context.Background(), silentRec(), false) }()
